@@ -167,6 +167,120 @@ def density(ctx, I):
             ctx.ob("C20.density", f"kernel {name} returns (distribution, scale)", bool(rets) and all(isinstance(r.value, ast.Tuple) and len(r.value.elts) == 2 for r in rets), "", f"{ctx.program.relpath(mod.path)}:{f.node.lineno}")
     density_laws(ctx)
     ctx.floor("C20.density", 40)
+    kernel_overflow(ctx, I)
+
+
+def exp_like_arguments(e, acc, depth=0):
+    """(kind, argument) of every exponential-like application inside e (deeply): e^x monomial factors, cosh, sinh."""
+    e = lift(e)
+    for m in e.t:
+        for a, x in m:
+            if a.kind == "euler":
+                acc.append(("exp", lift(x)))
+                if isinstance(x, E):
+                    exp_like_arguments(x, acc, depth + 1)
+                continue
+            if not isinstance(x, int):
+                exp_like_arguments(x, acc, depth + 1)
+            if a.kind in ("fn:cosh", "fn:sinh"):
+                acc.append((a.kind[3:], lift(a.args[0])))
+            if a.kind == "let":
+                exp_like_arguments(a.defn, acc, depth + 1)
+            else:
+                for g in a.args:
+                    if isinstance(g, E):
+                        exp_like_arguments(g, acc, depth + 1)
+                    elif isinstance(g, tuple):
+                        for gg in g:
+                            if isinstance(gg, E):
+                                exp_like_arguments(gg, acc, depth + 1)
+    return acc
+
+
+def kernel_overflow(ctx, I):
+    """Finiteness of the density estimates: an exponential in a counting kernel must not be applied to an argument that grows with the size of
+    the data set.  Each kernel of the table is interpreted on cosines c_i of angular distances written as c_i = 1 - u_i, u_i >= 0 (all the
+    domain says about them from above) and, separately, as c_i = lo + w_i, w_i >= 0 (lo = 0 for axial data, -1 otherwise): an argument of
+    exp that is a sum of non-positive terms under one of the two is <= 0, so exp of it cannot overflow.  An argument that is not, and that
+    exceeds the overflow threshold of float64 (709.78) at a witness point with n/sigma^2 <= 1e4, is reported."""
+    from ..interp import RaiseSig
+    from ..values import Unsupported
+    from .c01 import nonneg
+    ctx.rule("C20.finite", "no counting kernel applies exp/cosh/sinh to an argument that can exceed the float64 overflow threshold on the domain "
+                           "(cosines of angular distances in [-1, 1] or [0, 1]; any data-set size n, any smoothing sigma with n/sigma^2 <= 1e4)")
+    table = I.resolve("pydrex.stats.SPHERICAL_COUNTING_KERNELS")
+    M = 3
+    sg = alg.psym("sigma")
+    for name, f in sorted(table.items() if isinstance(table, dict) else []):
+        loc = f"{ctx.program.relpath(ctx.program.module('pydrex.stats').path)}:{getattr(getattr(f, 'node', None), 'lineno', 0)}"
+        for axial in (True, False):
+            lo = 0 if axial else -1
+            results = {}
+            for par in ("from above", "from below"):
+                u = [alg.psym(f"u{i}") for i in range(M)]
+                c = np.array([(1 - u[i]) if par == "from above" else (lo + u[i]) for i in range(M)], dtype=object)
+                kw = {"axial": axial}
+                if any(a.arg in ("σ", "sigma") for a in f.node.args.args + f.node.args.kwonlyargs):
+                    kw["σ"] = sg
+                try:
+                    out = Interp(ctx.program).call(f, (c,), kw)
+                except (RaiseSig, Unsupported) as ex:
+                    results[par] = ("error", str(ex)[:120])
+                    continue
+                acc = []
+                for part in (out if isinstance(out, tuple) else (out,)):
+                    for cell_ in (part.flat if isinstance(part, np.ndarray) else [part]):
+                        if isinstance(cell_, (E, int, float)):
+                            exp_like_arguments(alg.unfold_all(lift(cell_)), acc)
+                results[par] = ("ok", acc, u)
+            tag = f"{name}:axial={axial}"
+            if any(r[0] == "error" for r in results.values()):
+                ctx.ob("C20.finite", tag, "inconclusive", f"kernel could not be interpreted on its own: {results}", loc)
+                continue
+            nA, nB = len(results["from above"][1]), len(results["from below"][1])
+            bad = None
+            proven = 0
+            for idx in range(max(nA, nB)):
+                ok = False
+                witness = None
+                for par in ("from above", "from below"):
+                    acc, u = results[par][1], results[par][2]
+                    if idx >= len(acc):
+                        continue
+                    kind, arg = acc[idx]
+                    if kind == "exp" and nonneg(-arg)[0]:
+                        ok = True
+                        break
+                    if kind in ("cosh", "sinh") and arg.is_const():
+                        ok = True
+                        break
+                    # witness search on the domain
+                    for sv in (10.0, 1.0, 0.1, 0.02):
+                        for uv in (0.0, 0.5, 1.0, 2.0):
+                            if par == "from above" and uv > 1 - lo:
+                                continue
+                            if par == "from below" and lo + uv > 1:
+                                continue
+                            env = {next(iter(alg.atoms_of(sg))): sv}
+                            for ui in u:
+                                env[next(iter(alg.atoms_of(ui)))] = uv
+                            try:
+                                v = alg.evalf(arg, env, seed=1)
+                            except alg.AlgError:
+                                continue
+                            if v == v and (v > 709.78 if kind == "exp" else abs(v) > 710.47):
+                                witness = (kind, short(arg, 80), {"sigma": sv, "n/sigma^2": M / sv ** 2, "cos": (1 - uv) if par == "from above" else lo + uv}, v)
+                                break
+                        if witness:
+                            break
+                if ok:
+                    proven += 1
+                elif witness:
+                    bad = witness
+                    break
+            ctx.ob("C20.finite", tag, bad is None,
+                   (f"{bad[0]}({bad[1]}) reaches {bad[3]:.4g} > overflow threshold at {bad[2]}" if bad else f"{proven} of {max(nA, nB)} exponential arguments shown <= 0 on the domain; none found to overflow"), loc)
+    ctx.floor("C20.finite", 10)
 
 
 def density_laws(ctx):
